@@ -125,6 +125,16 @@ Definition atoi (s : bytes) : option Z :=
               if in_int64 z then Some z else None
   end.
 
+(* the VALUE strconv.ParseInt(s,10,64) returns when its error is ignored: 0 on a syntax error,
+   the nearest int64 on a range error *)
+Definition atoi_value (s : bytes) : Z :=
+  let '(neg, body) := split_sign s in
+  match parse_udec body with
+  | None => 0%Z
+  | Some n => let z := if neg then (- Z.of_N n)%Z else Z.of_N n in
+              if (z <? int64_min)%Z then int64_min else if (int64_max <? z)%Z then int64_max else z
+  end.
+
 (* for the driver: unbounded signed decimal *)
 Definition z_of_dec (s : bytes) : Z :=
   match s with
